@@ -179,7 +179,8 @@ fn check_buffered(ctx: &Ctx, r: &mut Report) {
 			sma_out.push(sma_ref.next(&x));
 			hist.push(x);
 			let at = |h: &Vec<V>, j: usize, dflt: V| if j < h.len() { h[h.len() - 1 - j] } else { dflt };
-			for j in [0usize, 1, n as usize / 2, n as usize - 1, n as usize, n as usize + 1, 1000] {
+			// indices beyond the PeriodType's range must be None as well (no truncation of the usize index)
+			for j in [0usize, 1, n as usize / 2, n as usize - 1, n as usize, n as usize + 1, 1000, 255, 256, 257, 256 + n as usize / 2, 65536, 65536 + n as usize - 1, usize::MAX] {
 				r.eval(1);
 				let want = if j < n as usize { Some(at(&hist, j, init)) } else { None };
 				let g = Buffered::get(&sma, j);
